@@ -272,15 +272,13 @@ def install_lock_seam(modules):
             memo[id(v)] = (v, r)        # keeps v alive so that its id stays unique
         return r
 
-    seen = set()
-
     def is_ours(v):
         mod = getattr(v, '__module__', None)
         if not isinstance(mod, str):
             mod = getattr(type(v), '__module__', '')
         return isinstance(mod, str) and (mod == 'athlib' or mod.startswith('athlib.'))
 
-    def walk(holder, items, setter, depth):
+    def rebind(items, setter):
         for k, v in items:
             c = conv(v)
             if c is not None:
@@ -288,29 +286,32 @@ def install_lock_seam(modules):
                     setter(k, c); count[0] += 1
                 except Exception:
                     pass
-                continue
-            if depth <= 0 or id(v) in seen:
-                continue
-            if isinstance(v, (dict, list, tuple)) and depth > 0 and len(v) <= 64 and not isinstance(v, tuple):
-                seen.add(id(v))
-                if isinstance(v, dict):
-                    walk(v, list(v.items()), v.__setitem__, depth - 1)
-                else:
-                    walk(v, list(enumerate(v)), v.__setitem__, depth - 1)
-                continue
-            if not is_ours(v):
-                continue
-            vd = getattr(v, '__dict__', None)
-            if vd is None:
-                continue
-            seen.add(id(v))
-            walk(v, list(vd.items()), (lambda kk, cc, obj=v: setattr(obj, kk, cc)), depth - 1)
+            elif type(v) in (dict, list) and 0 < len(v) <= 64:
+                # small plain containers one level down (a dict of locks, a list of conditions)
+                sub = list(v.items()) if type(v) is dict else list(enumerate(v))
+                for k2, v2 in sub:
+                    c2 = conv(v2)
+                    if c2 is not None:
+                        v[k2] = c2; count[0] += 1
 
+    # 1. the athlib modules' globals
     for m in modules:
         d = getattr(m, '__dict__', None)
-        if d is None:
+        if d is not None:
+            rebind([(k, v) for k, v in list(d.items()) if not k.startswith('__')], d.__setitem__)
+    # 2. every live object whose class (or which, being a class) is defined in athlib - whatever it is
+    #    reachable from: instances kept in module globals, in containers, in closures, dict subclasses ...
+    import gc
+    for obj in gc.get_objects():
+        try:
+            if not is_ours(obj):
+                continue
+            vd = vars(obj)
+        except Exception:
             continue
-        walk(m, [(k, v) for k, v in list(d.items()) if not k.startswith('__')], d.__setitem__, 3)
+        if isinstance(obj, type(sys)):
+            continue
+        rebind(list(vd.items()), (lambda kk, cc, o=obj: setattr(o, kk, cc)))
     return count[0]
 
 
@@ -347,7 +348,7 @@ def write_lines(code):
 
 class Sched(object):
     def __init__(self, programs, plan=None, first=0, pref=None, step_cap=300000,
-                 athlib_dir=None, record=False, stall_s=8.0):
+                 athlib_dir=None, record=False, stall_s=2.5):
         self.n = len(programs)
         self.programs = programs
         self.plan = plan or {}
